@@ -88,6 +88,25 @@ def run(chk):
                 check_result(chk, r, c, se, measure_tags=["quad:trapezoid", "attr:_values"])
             else:
                 check_result(chk, r, c, se, measure_tags=["user-im"], atom=F, not_tags=["quad:trapezoid"])
+    # ------------------------------------------------------------ the supplied measure is the one searched, on a record used before
+    # (every lazily kept quantity of the record in an unknown state): the series compared with the bounds is the value the supplied
+    # callable returned in THIS call -- not something kept on the record from an earlier call, whatever it was keyed by
+    def build_warm(I, st, fi):
+        return dict(asig=make_signal(I, st, P.cls(ACC), name="asig", flags="unknown")[1], start=frac("start"), end=frac("end"), se=const_av(False),
+                    im=AV(kind=K_FUNC, ref=("closure", user_im)))
+    r = analyse(chk, "eqsig.im.calc_sig_dur", build_warm, atoms=(R, DT, F))
+    c = "eqsig/im.py:calc_sig_dur(im=user, record used before)"
+    cmps = [e for e in r.events("compare") if e.fn.startswith("eqsig.im.") and (("p:start" in e.left.tags) != ("p:start" in e.right.tags))]
+    for e in cmps[:1]:
+        m = e.right if "p:start" in e.left.tags else e.left
+        chk.ob("R-MEASURE", c + "{series}", "the series searched for crossings is the value returned by the supplied measure in this call", 
+               m.origin == frozenset(["a@user-im"]) or (m.origin <= frozenset(["a@user-im", "lit"]) and "a@user-im" in m.origin),
+               derived="origin %s" % sorted(m.origin), loc=e.loc, stmt=e.stmt,
+               detail="another origin means a series kept from an earlier call can be searched instead" if "a@user-im" not in m.origin or
+               len(m.origin - {"lit"}) > 1 else None)
+    if not cmps:
+        chk.ob("R-MEASURE", c + "{series}", "a comparison of the measure against the start bound", False, derived="none located", inconclusive=True,
+               loc=r.fi.loc())
     # ------------------------------------------------------------ bracketed duration
     for q in ("eqsig.im.calc_brac_dur", "eqsig.im.calc_bracketed_duration"):
         for se in ((False, True) if q.endswith("brac_dur") else (False,)):
